@@ -2,6 +2,7 @@ import XzVerif.Proofs.SizeBound
 import XzVerif.Proofs.Writer2Size
 import XzVerif.Proofs.HashTable
 import XzVerif.Proofs.RunCost
+import XzVerif.Proofs.RunCostBT
 /-
   C17 — Compression is effective on redundancy and never expands data noticeably.
 
@@ -92,8 +93,9 @@ example : Expansion.sumSz [(65000, 65536, true), (100, 40, false)] = 65003 + 46 
   **Proved: `≤ n/500 + 251` for every n, every byte value, every valid configuration with a dictionary ≥ 64 KiB.**
   The property allows 128 bytes per stream: the constant 251 (137 adaptation + 102 for four irregular operations charged
   crudely + 12 framing) is what keeps this `_partial`; the real writer stays below n/500 + 30 (measured by the size
-  oracle on every run).  Dictionaries below 64 KiB (more frequent ring wraps), the BinaryTree finder and clause 2
-  (X‖X) are measured only. -/
+  oracle on every run).  A match-finder-generic version (`RunSpec`: what a finder must propose in a run) gives 213 for HashTable4 and 229 for
+  **BinaryTree** (which settles on distance 3), and the xz container adds at most 100.  Dictionaries below 64 KiB (more
+  frequent ring wraps) and clause 2 (X‖X) are measured only. -/
 
 open W2 in
 theorem C17_run_proposal_inside_the_ring (c : Cfg) (hc : CfgOk c) (b : UInt8) (m : HT.St) (hist look : ByteArray) (s : Lzma.St)
@@ -122,6 +124,25 @@ open W2 in
 theorem C17_run_compresses_partial (c : Cfg) (hc : CfgOk c) (hd : 65536 ≤ c.dictCap) (b : UInt8) (n : Nat) :
     (RunCost.lzma2OfRun c b n).size ≤ n / 500 + 251 :=
   RunCost.run_compresses_partial c hc hd b n
+
+open W2 in
+/-- the same with the sharper constant of the match-finder-generic development (irregular operations counted in bits) -/
+theorem C17_run_compresses_partial_213 (c : Cfg) (hc : CfgOk c) (hd : 65536 ≤ c.dictCap) (b : UInt8) (n : Nat) :
+    (RunCost.lzma2OfRun c b n).size ≤ n / 500 + 213 :=
+  RunCost.run_compresses_partial_213 c hc hd b n
+
+open W2 in
+/-- **BinaryTree**: inside a run it settles on distance 3 (it tries 3, 2, 1 first), which then is rep0; same method -/
+theorem C17_run_compresses_partial_bintree (c : Cfg) (hc : CfgOk c) (hd : 65536 ≤ c.dictCap) (b : UInt8) (n : Nat) :
+    (RunCost.lzma2OfRunBT c b n).size ≤ n / 500 + 229 :=
+  RunCost.run_compresses_partial_bt_229 c hc hd b n
+
+/-- the whole xz writer model (one block, HashTable4): container overhead ≤ 100 bytes on top (the property allows
+    128 + 64 = 192 in all; proved: 351) -/
+theorem C17_xz_run_compresses_partial (c : XzW.Cfg) (hc : XzW.CfgOk c) (hd : 65536 ≤ c.w2.dictCap) (b : UInt8) (n : Nat)
+    (hblk : n ≤ c.blockSize) (hn : n < 2 ^ 40) :
+    (XzW.run c HT.HT4 (HT.St.new c.w2.dictCap c.w2.bufSize) [RunCost.runOf b n]).size ≤ n / 500 + 251 + 100 :=
+  RunCost.xz_run_compresses_partial c hc hd b n hblk hn
 
 /-- non-vacuity of the ring-end case: the counterexample to "always distance 1" (dictCap 1000, bufSize 273, 1273 bytes
     of history, a full look-ahead: the proposal is distance 19, length 20) is evaluated in Proofs/RunCost.lean (`#guard`). -/
